@@ -31,6 +31,7 @@
  *   REST!   lyd_free_tree/lyd_free_siblings changed something outside the freed subtree
  *   DICT!   a failed lys_parse_mem changed the number of dictionary strings
  *   CTX!    the context does not parse a trivial document any more after lys_parse_mem
+ *   ANYPTR! after lyd_new_path*() an anydata/anyxml node holds the caller's value buffer itself, not a copy
  *   LOGLOC!<s>,<d>,<p>,<i> the call left entries on the thread's log location stack (schema nodes, data nodes, paths,
  *           inputs); they point into trees / contexts that can be freed, the next message would walk them
  * "-" = command skipped (empty slot / arguments the driver refuses, see the comments), "?" = malformed command.
@@ -364,6 +365,7 @@ static const char *MOD_T =
 static struct ly_ctx *C[NCTX];
 static struct lyd_node *T[NT];
 static unsigned gen_diff;       /* slots that hold a diff produced by lyd_diff_siblings / lyd_diff_reverse_all / lyd_diff_merge_all */
+static unsigned used_unknown;   /* contexts whose number of distinct strings can no longer be predicted (a module was loaded) */
 static long base_used[NCTX], base_refs[NCTX];  /* dictionary strings / references right after module loading */
 static int notfreed_warn;
 static int debug;
@@ -506,6 +508,21 @@ arg_str(const char *w)
     return s;
 }
 
+/* argument buffers that must outlive the command (a node was found to point into one), freed at the end of the case */
+static char *keepbuf[64];
+static int nkeepbuf;
+
+static void
+arg_keep(const char *p)
+{
+    for (int i = 0; i < nargbuf; i++) {
+        if ((argbuf[i] == p) && (nkeepbuf < 64)) {
+            keepbuf[nkeepbuf++] = argbuf[i];
+            argbuf[i] = NULL;
+        }
+    }
+}
+
 static void
 arg_free(void)
 {
@@ -632,6 +649,34 @@ has_yang_meta(struct lyd_node *first)
         }
         for (const struct lyd_meta *m = n->meta; m; m = m->next) {
             if (!lyd_meta_is_internal(m) && !strcmp(m->annotation->module->name, "yang")) {
+                return 1;
+            }
+        }
+    }
+    return 0;
+}
+
+static int
+has_opaq(struct lyd_node *first)
+{
+    for (struct lyd_node *n = first; n; n = dfs_next(n)) {
+        if (!n->schema) {
+            return 1;
+        }
+    }
+    return 0;
+}
+
+/* two equal instances of a configuration list / leaf-list among siblings (data that cannot be valid) */
+static int
+has_dup_inst(struct lyd_node *first)
+{
+    for (struct lyd_node *n = first; n; n = dfs_next(n)) {
+        if (!n->schema || !(n->schema->nodetype & (LYS_LIST | LYS_LEAFLIST)) || lysc_is_dup_inst_list(n->schema)) {
+            continue;
+        }
+        for (struct lyd_node *m = n->next; m; m = m->next) {
+            if ((m->schema == n->schema) && !lyd_compare_single(n, m, 0)) {
                 return 1;
             }
         }
@@ -787,7 +832,9 @@ dict_dump(const struct ly_ctx *ctx, struct sbuf *o)
     LYHT_ITER_ALL_RECS(ht, hl, ri, rec) {
         struct ly_dict_rec *d = (struct ly_dict_rec *)rec->val;
 
-        sb_fmt(o, "%u\t%.60s\n", d->refcount, d->value);
+        sb_fmt(o, "%u\t", d->refcount);
+        sb_hex(o, d->value, strlen(d->value) > 40 ? 40 : strlen(d->value));
+        sb_str(o, "\n");
     }
 }
 
@@ -914,6 +961,10 @@ run_cmd(char **w, int nw, struct cmdres *r)
                 /* a tree cannot become the value of its own descendant; trees of another context are not put in */
                 SKIP();
             }
+        }
+        if (parent && !parent->schema && (c[0] != 'o') && (w[2][0] == '~')) {
+            /* "module: if NULL, the parent's module is used" - an opaque parent has none (NULL dereference) */
+            SKIP();
         }
         d = take_dest(w[last], r, ps, srcslot);
         if (d < 0) {
@@ -1089,6 +1140,16 @@ run_cmd(char **w, int nw, struct cmdres *r)
         r->fail = r->rc ? 1 : 0;
         if (r->rc && (np || nn)) {
             sb_str(&r->flags, "OUT!");
+        }
+        if (!nn) {
+            nn = np;
+        }
+        if (!r->rc && nn && nn->schema && (nn->schema->nodetype & LYD_NODE_ANY) && v &&
+                (((struct lyd_node_any *)nn)->value.str == v)) {
+            /* the node holds the caller's buffer itself instead of a copy (the buffer is kept until the end of the case
+             * so that the tree can still be read) */
+            sb_str(&r->flags, "ANYPTR!");
+            arg_keep(v);
         }
         if (!r->rc && !T[s] && np) {
             T[s] = top_first(np);
@@ -1284,6 +1345,16 @@ run_cmd(char **w, int nw, struct cmdres *r)
             /* the parameter is a struct lyd_node_inner * */
             SKIP();
         }
+        if (par && (par == lyd_parent(n))) {
+            /* a second instance of every copied sibling below the same parent: data that cannot be valid (two
+             * instances of a container / leaf), the children hash table of the parent asserts on them */
+            SKIP();
+        }
+        if (par && !(OPTS(w[3]) & LYD_DUP_WITH_PARENTS) && n->schema && (lysc_data_parent(n->schema) != par->schema)) {
+            /* without LYD_DUP_WITH_PARENTS the library does not check that the copy can be a child of the parent and
+             * links it there regardless */
+            SKIP();
+        }
         if ((d = take_dest(w[4], r, s, ps)) < 0) {
             SKIP();
         }
@@ -1330,6 +1401,10 @@ run_cmd(char **w, int nw, struct cmdres *r)
         t = slot_of(w[1]);
         s = slot_of(w[2]);
         if ((t == s) || !T[s]) {
+            SKIP();
+        }
+        if (has_opaq(T[s])) {
+            /* lyd_merge_sibling_r() -> lyd_dup_inst_next() asserts on an opaque source node that is not in the target */
             SKIP();
         }
         src = T[s];
@@ -1455,8 +1530,18 @@ run_cmd(char **w, int nw, struct cmdres *r)
         if (T[a] && T[b] && (LYD_CTX(T[a]) != LYD_CTX(T[b]))) {
             SKIP();
         }
-        if (has_yang_meta(T[a]) || has_yang_meta(T[b])) {
-            /* data that carry diff metadata themselves are not diffed (lyd_diff_add() asserts on them) */
+        for (int k = 0; k < 2; k++) {
+            for (struct lyd_node *n = T[k ? b : a]; n; n = n->next) {
+                if (n->schema && lysc_data_parent(n->schema)) {
+                    /* an unlinked nested node is not a data tree that can be compared (lyd_diff_siblings_r() asserts
+                     * on keys) */
+                    SKIP();
+                }
+            }
+        }
+        if (has_yang_meta(T[a]) || has_yang_meta(T[b]) || has_dup_inst(T[a]) || has_dup_inst(T[b])) {
+            /* data that carry diff metadata themselves or hold duplicate instances are not diffed (lyd_diff_add()
+             * asserts on them) */
             SKIP();
         }
         r->ectx = T[a] ? LYD_CTX(T[a]) : (T[b] ? LYD_CTX(T[b]) : C[0]);
@@ -1654,10 +1739,51 @@ run_cmd(char **w, int nw, struct cmdres *r)
         struct lyd_node *probe = NULL;
         long u0, r0, u1, r1;
 
+        int live = 0;
+        char *text;
+
         NEED(3);
+        text = arg_str(w[2]);
+        for (int k = 0; k < NT; k++) {
+            live |= (T[k] && (LYD_CTX(T[k]) == C[ci])) ? 1 : 0;
+        }
+        if (live) {
+            /* "the context and its content should not change [once there are data], in most cases it leads to the
+             * context being recompiled and any parsed data invalid": a load that recompiles one of the modules a, b, t or an internal
+             * module (decided on a scratch context with the same modules) is not made while trees of the context exist */
+            struct ly_ctx *sc = NULL;
+            const struct lys_module *m;
+            const void *comp[32];
+            uint32_t idx = 0, n = 0;
+            int recompiled = 1;
+
+            if (!ly_ctx_new(NULL, LY_CTX_NO_YANGLIBRARY, &sc) && !lys_parse_mem(sc, MOD_A, LYS_IN_YANG, NULL) &&
+                    !lys_parse_mem(sc, MOD_B, LYS_IN_YANG, NULL) && !lys_parse_mem(sc, MOD_T, LYS_IN_YANG, NULL)) {
+                while ((m = ly_ctx_get_module_iter(sc, &idx)) && (n < 32)) {
+                    comp[n++] = m->compiled;
+                }
+                lys_parse_mem(sc, text, LYS_IN_YANG, NULL);
+                recompiled = 0;
+                idx = 0;
+                for (uint32_t j = 0; j < n; j++) {
+                    m = ly_ctx_get_module_iter(sc, &idx);
+                    if (!m || (m->compiled != comp[j])) {
+                        recompiled = 1;
+                    }
+                }
+            }
+            ly_ctx_destroy(sc);
+            if (log_location.scnodes.count || log_location.dnodes.count || log_location.paths.count || log_location.inputs.count) {
+                ly_log_location_revert(log_location.scnodes.count, log_location.dnodes.count, log_location.paths.count,
+                        log_location.inputs.count);
+            }
+            if (recompiled) {
+                SKIP();
+            }
+        }
         r->ectx = C[ci];
         dict_stat(C[ci], &u0, &r0);
-        r->rc = lys_parse_mem(C[ci], arg_str(w[2]), LYS_IN_YANG, &mod);
+        r->rc = lys_parse_mem(C[ci], text, LYS_IN_YANG, &mod);
         r->fail = r->rc ? 1 : 0;
         if (r->rc && mod) {
             sb_str(&r->flags, "OUT!");
@@ -1668,8 +1794,11 @@ run_cmd(char **w, int nw, struct cmdres *r)
                 sb_fmt(&r->flags, "DICT!%+ld", u1 - u0);
             }
         } else {
-            base_used[ci] += u1 - u0;
+            /* the new module's references are added to the baseline; the number of distinct strings cannot be carried
+             * over (a string shared by the module and a live data tree is counted once now, and stays when the tree is
+             * freed): from here on only the references of this context are balanced */
             base_refs[ci] += r1 - r0;
+            used_unknown |= 1u << ci;
         }
         if (lyd_parse_data_mem(C[ci], "<top xmlns=\"urn:a\">x</top>", LYD_XML, LYD_PARSE_ONLY | LYD_PARSE_STRICT, 0, &probe) ||
                 !probe) {
@@ -1755,6 +1884,7 @@ main(void)
         sb_reset(&o);
         notfreed_warn = 0;
         gen_diff = 0;
+        used_unknown = 0;
         trk_reset();
         trk_on = 1;
         cur_cmd = -1;
@@ -1839,6 +1969,10 @@ main(void)
                 }
                 dump_node(&after[k], T[k], 0, 0, NULL, NULL);
                 if (strcmp(before[k].s ? before[k].s : "", after[k].s ? after[k].s : "")) {
+                    if (debug) {
+                        fprintf(stderr, "SLOT %d after command %d:\n before %s\n after  %s\n", k, i - 1, before[k].s ? before[k].s : "",
+                                after[k].s ? after[k].s : "");
+                    }
                     if (r.skipped) {
                         if (!(r.modfail & (1u << k))) {
                             sb_fmt(&o, "UNREL!%d", k);
@@ -1860,6 +1994,9 @@ main(void)
             lyd_free_all(T[k]);
             T[k] = NULL;
         }
+        while (nkeepbuf) {
+            free(keepbuf[--nkeepbuf]);
+        }
         for (int i = 0; i < NCTX; i++) {
             du[i] = dr[i] = 0;
             if (C[i]) {
@@ -1867,7 +2004,7 @@ main(void)
 
                 ly_err_clean(C[i], NULL);
                 dict_stat(C[i], &u, &rf);
-                du[i] = u - base_used[i];
+                du[i] = (used_unknown & (1u << i)) ? 0 : u - base_used[i];
                 dr[i] = rf - base_refs[i];
                 if (du[i] || dr[i]) {
                     struct ly_ht *ht = C[i]->dict.hash_tab;
@@ -1921,15 +2058,17 @@ main(void)
             int l = __lsan_do_recoverable_leak_check();
 
             lsan = (l && !lsan_seen) ? 1 : (l ? 2 : 0);
-            if (l) {
-                /* the blocks known to the tracker are not reported again; if the report persists (a block that the
-                 * tracker does not know) later cases print l2 = "cannot tell" */
+            /* LeakSanitizer reports a block again in every later check, and it may see a block of this case only in
+             * a later case (a stale pointer on the stack hides it now): every block that the tracker knows to be left
+             * is excluded from later reports; if the report persists (a block that the tracker does not know) later
+             * cases print l2 = "cannot tell" */
+            if (l || leaks) {
                 for (size_t i = 0; &__lsan_ignore_object && (i < trk_cap); i++) {
                     if (trk_tab[i].key > 1) {
                         __lsan_ignore_object((const void *)~trk_tab[i].key);
                     }
                 }
-                if (__lsan_do_recoverable_leak_check()) {
+                if (l && __lsan_do_recoverable_leak_check()) {
                     lsan_seen = 1;
                 }
             }
